@@ -438,8 +438,13 @@ pub fn motif_pos(sel: &[u8; 8], extras: &[(u8, u8, u8)], gold_to_move: bool, las
     } else {
         let kv = 1 + sel[3] % 5; // R..M
         let kg = kv + 1 + (sel[4] % (m::E - kv));
-        (1 + sel[5] % 6, kv, kg)
+        let mut kx = 1 + sel[5] % 6;
+        if kx == kg && m::COMPLEMENT[kx as usize] < 2 {
+            kx = 1 + (kx % 4); // one elephant / one camel per side
+        }
+        (kx, kv, kg)
     };
+    debug_assert!(!(kx == kg && m::COMPLEMENT[kx as usize] < 2));
     b.0[t as usize] = m::mk(mover, kx);
     b.0[g as usize] = m::mk(mover, kg);
     b.0[v as usize] = m::mk(!mover, kv);
@@ -575,6 +580,19 @@ mod tests {
     use super::*;
     use proptest::strategy::ValueTree;
     use proptest::test_runner::{Config, RngSeed, TestRunner};
+
+    #[test]
+    fn special_starts_are_legal() {
+        let mut runner = TestRunner::new(Config { rng_seed: RngSeed::Fixed(11), ..Config::default() });
+        for _ in 0..20000 {
+            let p = motif().new_tree(&mut runner).unwrap().current();
+            assert!(p.board.within_complement(), "{:?}", crate::core::board_text(&p.board));
+            assert!(p.board.traps_legal(), "{:?}", crate::core::board_text(&p.board));
+            let q = near_immobile().new_tree(&mut runner).unwrap().current();
+            assert!(q.board.within_complement(), "{:?}", crate::core::board_text(&q.board));
+            assert!(q.board.traps_legal(), "{:?}", crate::core::board_text(&q.board));
+        }
+    }
 
     #[test]
     fn positions_are_legal() {
